@@ -16,11 +16,13 @@ import re
 
 import common
 import objlayer as ol
+import accsession
 import objops
 import objsession as S
 from common import Ctx, Outcome
 
-DRIVERS = ["Delete"]
+DRIVERS = ["Delete", "Accessor"]
+TABLES = True
 RULE = ("deletion targets drawn from every corpus model: random objects, most-referenced objects, objects referenced from "
         "physical link ends (refusing), subtree roots; after 0-10 random prior edits; through del lst[i], lst.remove(x), "
         "del owner.attr, assigning [] and the declarative 'delete'; distinct = (model, entry point, outcome, number of "
@@ -353,6 +355,8 @@ def run(ctx: Ctx) -> Outcome:
         rng = random.Random(f"c09:{ctx.seed}:{key}")
         model = None
         left = 0
+        acc = None
+        prev_model = None
         for d in range(ndel):
             if model is None or left <= 0:
                 model = ol.load(ctx, key)
@@ -361,7 +365,13 @@ def run(ctx: Ctx) -> Outcome:
                 _ROOTS.update(id(t.root) for t in model._loader.trees.values())
                 # prior edits
                 pre_out = Outcome()
-                S.run_history(ctx, pre_out, key, rng.randrange(0, 11), [], model=model, hist_id=1000 + d, rng=random.Random(f"c09pre:{ctx.seed}:{key}:{d}"),
+                if acc is not None:
+                    acc.final = True
+                    acc.end(prev_model)
+                prev_model = model
+                acc = accsession.AccessorTie(out, dump_every=0)
+                acc.keep_open = True
+                S.run_history(ctx, pre_out, key, rng.randrange(0, 11), [acc], model=model, hist_id=1000 + d, rng=random.Random(f"c09pre:{ctx.seed}:{key}:{d}"),
                               weights={"delitem": 0, "remove": 0, "clear": 0, "setitem": 0, "delete_referenced": 0, "create_nested": 0})
                 _ROOTS.update(id(t.root) for t in model._loader.trees.values())
             left -= 1
@@ -392,10 +402,15 @@ def run(ctx: Ctx) -> Outcome:
                     except Exception:  # noqa: BLE001
                         pass
             name, fn, rel = ep[:3]
+            if acc is not None:
+                fn = acc.wrap(model, fn, deletion_call(acc, name, rel, tgt), f"delete.{name}", rel)
             one_deletion(ctx, out, model, key, tgt, name, fn, rel, mode, req, impl, meta, extra=[x._element for x in ep[3:]])
             if _ROOTS != {id(t.root) for t in model._loader.trees.values()}:
                 _ROOTS.clear()
                 _ROOTS.update(id(t.root) for t in model._loader.trees.values())
+        if acc is not None:
+            acc.final = True
+            acc.end(model)
     if os.environ.get("VERIF_NO_MODEL") != "1" and req:
         answers = common.model(req, driver="Delete")
         for m, iv, ans in zip(meta, impl, answers):
@@ -413,6 +428,26 @@ def run(ctx: Ctx) -> Outcome:
                 out.disagree("delete", list(m[:3]) + [detail], iv, mv)
             out.hit("delete.model." + ("refused" if iv == "NotImplementedError" else "ok"))
     return out
+
+
+def deletion_call(acc, name, rel, tgt):
+    """the API-level description of a deletion entry point for the accessor model"""
+    try:
+        ids = [id(e) for e in rel.get()._elements]
+        i = ids.index(id(tgt._element))
+    except Exception:  # noqa: BLE001
+        return {"_decline": "target-not-in-list"}
+    if name == "delitem":
+        return acc.rel_call(rel, "delitem", i=i, elems=ids)
+    if name == "delitem-neg":
+        return acc.rel_call(rel, "delitem", i=i - len(ids), elems=ids)
+    if name == "remove":
+        return acc.rel_call(rel, "delitem", i=i, elems=ids)
+    if name in ("delattr", "delattr-all"):
+        return acc.rel_call(rel, "del")
+    if name == "assign-empty":
+        return acc.rel_call(rel, "set", vs=[])
+    return {"_decline": f"entry:{name}"}
 
 
 def one_deletion(ctx, out, model, key, tgt, name, fn, rel, mode, req, impl, meta, extra=()):
